@@ -46,6 +46,18 @@ class AV:
         a.f = {k: v for k, v in self.f.items() if k in keys}
         return a
 
+    def __eq__(self, other):
+        if self is other:
+            return True
+        if not isinstance(other, AV):
+            return False
+        try:
+            return self.f == other.f
+        except RecursionError:
+            return False
+
+    __hash__ = object.__hash__
+
     def __repr__(self):
         items = []
         for k, v in self.f.items():
@@ -128,6 +140,9 @@ def join(a, b):
                     out['valset'] = frozenset([va[1], vb[1]]) | (fa.get('valset') or frozenset()) | (fb.get('valset') or frozenset())
                 except TypeError:
                     pass
+            elif k == 'idx':
+                members = frozenset((va[1] if va[0] == 'JOIN' else frozenset([va])) | (vb[1] if vb[0] == 'JOIN' else frozenset([vb])))
+                out['idx'] = ('JOIN', members)
             elif k == 'oid':
                 out['oid'] = min(va, vb)
                 out['oids'] = frozenset([va, vb]) | (fa.get('oids') or frozenset()) | (fb.get('oids') or frozenset())
@@ -237,6 +252,7 @@ class Interp:
         self.model = model
         model.interp = self
         self.values = {}  # id(node) -> AV joined over all evaluations
+        self.last = {}  # id(node) -> AV of the most recent evaluation
         self.node_fn = {}  # id(node) -> FunctionInfo in which it was evaluated
         self.events = []
         self.stack = []  # (FunctionInfo, call node)
@@ -665,8 +681,9 @@ class Interp:
     # ------------------------------------------------------------------ refinement on branches
     def refine(self, test, frame, st):
         """Return (true_state, false_state); a state is None when that edge is infeasible."""
-        tv = self.values.get(('cur', id(test)))
-        v = self.eval(test, frame, st)
+        v = self.last.get(id(test))
+        if v is None:
+            v = self.eval(test, frame, st)
         truth = self.model.truth(v)
         if truth is True:
             return st, None
@@ -682,6 +699,7 @@ class Interp:
         k = id(node)
         old = self.values.get(k)
         self.values[k] = join(old, v) if old is not None else v
+        self.last[k] = v
         if frame is not None and frame.fn is not None:
             self.node_fn[k] = frame.fn
 
